@@ -111,6 +111,24 @@ reg(
     "DESIGN.md 5/C11",
 )
 
+reg(
+    "C12",
+    "bounded exhaustive enumeration of paired fits: every labeling of small pools and every insertion of 1-2 unlabeled rows (position x value x weight) for every supervised learner; differential oracle full data vs labeled subset",
+    "For every purely supervised learner the model fitted on (X, y, w) is compared with the model fitted on the labeled subset, for all "
+    "labelings over {missing, 3 classes/targets} of 4-point pools, all weight patterns of the unlabeled rows over {0.5,3} and all "
+    "single (thorough: double) insertions of foreign unlabeled rows at every position.",
+    "Pools of 4 points; comparisons bit-wise for scikit-learn wrappers, rtol 1e-9 for kernel sums; wrapped estimators trusted.",
+    "DESIGN.md 5/C12",
+)
+reg(
+    "C15",
+    "bounded exhaustive enumeration of all target vectors over {missing,0,1,3}^4 x weight patterns x prior settings for every regressor; oracle = agreement of predict with the returned distribution, finiteness under proper priors, sample_y laws, documented fall-backs",
+    "Every regressor variant (incl. improper priors and wrapped estimators that cannot be fitted) is fitted on every target vector and "
+    "judged at an interior, a training and a far query point.",
+    "One 1-D pool of 4 points; scipy.stats distributions and wrapped estimators trusted.",
+    "DESIGN.md 5/C15",
+)
+
 
 def main():
     props = [json.loads(l) for l in open(os.path.join(HOME, "properties.jsonl"))]
